@@ -46,7 +46,7 @@ def fracOK (digits : Int) (body : List Char) : Bool :=
 def exactTarget (r : Renderer) (d : Rat) : Rat :=
   roundPlaces r.round (if r.thousands then d / 1000 else d)
 
-/-- what the code computes: `Div` rounds the quotient to 16 places first -/
+/-- what the code computes: `Shift(-3)` is exact, so this is `exactTarget` (definitionally) -/
 def codeTarget (r : Renderer) (d : Rat) : Rat := roundPlaces r.round (scaled r d)
 
 /-- a numeric cell text `body` shows the value `target`: without separators it parses to `target`,
